@@ -47,6 +47,9 @@ def main():
                 shutil.move(bak, ev)
     finally:
         subprocess.run("git -C /repo checkout -- .", shell=True)
+        # the translators rewrote lean/Generated/* from the patched tree: regenerate from the clean tree
+        for t in ("omp_extract.py", "omp_owner.py", "cxx_expr.py", "testcase_extract.py"):
+            subprocess.run(["python3", os.path.join(ROOT, "tools", t)], stdout=subprocess.DEVNULL, stderr=subprocess.DEVNULL)
     meta.setdefault("checks", {}).update(out_all)
     json.dump(meta, open(mp, "w"), indent=1)
 
